@@ -462,7 +462,7 @@ def path_expand(path, path_template=None, level_offset=None, account_id=0, cosig
     return npath
 
 
-def bip38_decrypt(encrypted_privkey, password):
+def bip38_decrypt(encrypted_privkey, password, network=DEFAULT_NETWORK):
     """
     BIP0038 non-ec-multiply decryption. Returns WIF private key.
     Based on code from https://github.com/nomorecoin/python-bip38-testing
@@ -475,6 +475,8 @@ def bip38_decrypt(encrypted_privkey, password):
 
     :return tuple (bytes, bytes, boolean, dict): (Private Key bytes, 4 byte address hash for verification, compressed?, dictionary with additional info)
     """
+    if isinstance(password, str):
+        password = unicodedata.normalize('NFC', password).encode('utf-8')
     d = change_base(encrypted_privkey, 58, 256)
     if len(d) != 43 or double_sha256(d[:-4])[:4] != d[-4:]:
         raise EncodingError("Invalid BIP38 encrypted key, length or checksum incorrect")
@@ -531,7 +533,7 @@ def bip38_decrypt(encrypted_privkey, password):
             public_key: str = private_key.public_compressed_hex
             compressed = True
 
-        address = private_key.address(compressed=compressed)
+        address = Key(private_key.private_byte, compressed=compressed, network=network).address()
         address_hash_check = double_sha256(bytes(address, 'utf8'))[:4]
         if address_hash_check != address_hash:
             raise ValueError("Address hash has invalid checksum")
@@ -602,7 +604,7 @@ def bip38_encrypt(private_hex, address, password, flagbyte=b'\xe0'):
     if isinstance(address, str):
         address = address.encode('utf-8')
     if isinstance(password, str):
-        password = password.encode('utf-8')
+        password = unicodedata.normalize('NFC', password).encode('utf-8')
     addresshash = double_sha256(address)[0:4]
     key = scrypt_hash(password, addresshash, 64, 16384, 8, 8)
     derivedhalf1 = key[0:32]
@@ -1439,7 +1441,7 @@ class Key(object):
 
         :return str: Private Key WIF
         """
-        priv, addresshash, compressed, _ = bip38_decrypt(encrypted_privkey, password)
+        priv, addresshash, compressed, _ = bip38_decrypt(encrypted_privkey, password, network or DEFAULT_NETWORK)
 
         # Verify addresshash
         k = Key(priv, compressed=compressed, network=network)
@@ -1991,7 +1993,7 @@ class HDKey(Key):
 
         :return str: Private Key WIF
         """
-        priv, addresshash, compressed, _ = bip38_decrypt(encrypted_privkey, password)
+        priv, addresshash, compressed, _ = bip38_decrypt(encrypted_privkey, password, network or DEFAULT_NETWORK)
         # compressed = True if priv[-1:] == b'\1' else False
 
         # Verify addresshash
